@@ -73,6 +73,28 @@ def end_to_end(chk, P, prefix="C07", only=None):
         if missing:
             return False, ("OtlpInner::blocking_flush does not flush the signal(s) %s: flush would report success while "
                            "their requests are still queued" % missing), [], b.span
+        # a configured signal is flushed unconditionally: on every true-returning path, a signal found configured (Some edge of its field)
+        # has had its flush called - no time-budget or other test may skip it and still report success
+        flush_of = {}
+        for c in fl:
+            o = b.origin(c.args[0])
+            for fname in sig_fields:
+                if any(fname == n for n in (mir.o_field_path(x)[1][:1] for x in [o]) for n in n) or fname in o_str(o):
+                    flush_of.setdefault(fname, set()).add(c.bb)
+        for rb in b.return_blocks():
+            for path in b.acyclic_paths(0, rb, limit=20000):
+                ps = mir.PathSummary(b, path)
+                if mir.o_const_value(ps.ret()) is not True:
+                    continue
+                for sbb, o, vals in ps.decisions():
+                    if o[0] != "discr":
+                        continue
+                    r_, names = mir.o_field_path(o[1])
+                    if r_ is not None and r_[0] == "param" and r_[1] == 1 and names and names[0] in sig_fields and tuple(vals) in (("1",), (1,)):
+                        if not (flush_of.get(names[0], set()) & set(path)):
+                            return False, ("OtlpInner::blocking_flush can return true with the configured %s signal not flushed (a path through its "
+                                           "Some arm skips the flush, e.g. when no time is left): success would be reported while its requests "
+                                           "are unanswered" % names[0]), [], b.span
         # a failed signal flush makes the whole flush fail: every path returning true passes through all configured flushes' success edges
         for rb in b.return_blocks():
             for path in b.acyclic_paths(0, rb, limit=20000):
